@@ -100,3 +100,6 @@ PARTIAL += [
     "converter's termination is observed by family `ustream` (per-case time limit), not proved; finding F-source-minus-one is "
     "modelled as it is (C03_cex_source_minus_one): ustream_read_chars returns -1 with error code -1",
 ]
+
+# ---- independent review rA (notes/review/rA-review.md) ----
+LEAN_MODULES += ["CifModel.Props.ReviewRC03"]
